@@ -89,6 +89,24 @@ def _parse_with_conts(parse, buf, mk_params, follow):
     raise RuntimeError('continuation loop did not converge')
 
 
+def _reparse(P, raw):
+    """parse the serialised form again; a synchronising literal ({n} CRLF data) arrives in two pieces, the
+    header line first and the data as continuation, exactly as the connection loop delivers it"""
+    mvraw = _mv(raw)
+    first = mvraw[0:1]
+    if len(raw) and (bool(first == b'{') or bool(first == b'~')):
+        cut = None
+        for i in range(len(raw)):
+            if bool(mvraw[i:i + 1] == b'\n'):
+                cut = i + 1
+                break
+        if cut is not None:
+            head, tail = mvraw[:cut], mvraw[cut:]
+            (obj2, rest2), conts = _parse_with_conts(P.parse, head, lambda st: _g['Params'](st), lambda n: tail)
+            return obj2, rest2
+    return P.parse(mvraw, _g['Params']())
+
+
 def _mv(x):
     from pysymex import SymBytes
     if isinstance(x, SymBytes):
@@ -117,7 +135,7 @@ def _h_reparse(cls_name, n, lead=b''):
         consumed = buf[:len(buf) - len(rest)]
         props = [B(rest == buf[len(buf) - len(rest):])]
         try:
-            obj2, rest2 = P.parse(_mv(raw), _g['Params']())
+            obj2, rest2 = _reparse(P, raw)
         except NP:
             return Outcome(False, site='parsed', witness=wit)
         props.append(len(rest2) == 0)
@@ -497,7 +515,18 @@ def replay(harness, w):
         raw = bytes(obj)
         consumed = buf[:len(buf) - len(rest)]
         try:
-            obj2, rest2 = P.parse(memoryview(raw), Params())
+            if raw[:1] in (b'{', b'~') and b'\n' in raw:
+                # a synchronising literal arrives in two pieces (header line, then data as continuation)
+                cut = raw.index(b'\n') + 1
+                conts = []
+                for _ in range(3):
+                    try:
+                        obj2, rest2 = P.parse(memoryview(raw[:cut]), Params(ParsingState(continuations=conts)))
+                        break
+                    except ParsingInterrupt:
+                        conts.append(memoryview(raw[cut:]))
+            else:
+                obj2, rest2 = P.parse(memoryview(raw), Params())
             if len(rest2) or obj2.value != obj.value:
                 bad.append('reparse of %r gives %r rest %r' % (raw, obj2.value, bytes(rest2)))
         except NotParseable:
